@@ -95,8 +95,10 @@ def _format_extras(name: str, nsmap: dict) -> str:
 
 
 def _escape_attribute(value) -> str:
-    # Attribute values are written between double quotes
-    return escape(str(value), {'"': "&quot;"})
+    # Attribute values are written between double quotes; literal tabs and line
+    # breaks would be normalised to spaces by the next parser, so write them as
+    # character references
+    return escape(str(value), {'"': "&quot;", "\t": "&#9;", "\n": "&#10;", "\r": "&#13;"})
 
 
 def _nsp_unique(child_nsmap: dict, parent_nsmap: dict) -> dict:
